@@ -861,6 +861,21 @@ func parseSpecLines(lines []specLine, pkg string, file string, trusted bool) (*S
 		case "option":
 			k, v := splitWord(rest)
 			cur.Options[k] = v
+		case "assume":
+			// assume at "<anchor text>" E     -- an explicit, listed assumption (never added to make a proof pass silently)
+			if !strings.HasPrefix(rest, "at ") {
+				return nil, fmt.Errorf("%s: assume at \"text\" E", ln.pos)
+			}
+			r := strings.TrimSpace(rest[3:])
+			j := strings.Index(r[1:], "\"")
+			anchor := r[1 : 1+j]
+			c, err := mk("assume", owner, strings.TrimSpace(r[j+2:]), ln.pos)
+			if err != nil {
+				return nil, err
+			}
+			lastClause = c
+			c.Kind = "assume-at"
+			cur.Asserts[anchor] = append(cur.Asserts[anchor], c)
 		case "setat":
 			// setat "<anchor text>" ghost := expr     (executed just before the anchored statement)
 			r := strings.TrimSpace(rest)
